@@ -209,7 +209,7 @@ theorem doy_rebuild (y mo d : Int) (hv : Cal.validDate y mo d) :
     rcases this with h|h|h|h|h|h|h|h|h|h|h|h <;> subst h <;> cases hl : Cal.isLeap y <;>
       simp [Cal.daysBeforeMonth, Cal.daysInMonth, hl] at h4 ⊢ <;> omega
 
-theorem meridiemTooLate_small (k : Int) (mi s us : Option Int) (hk : k ≤ 12) : meridiemTooLate k mi s us = .ok false := by
+theorem meridiemTooLate_small (k : Int) (mi s us : Option Int) (hk : k ≤ 12) : meridiemTooLate k mi s us = false := by
   unfold meridiemTooLate
   rw [if_neg (by omega), if_pos (by omega)]
 
